@@ -398,15 +398,16 @@ static void cut_then_frames_case(int codec)
     mc::more_cases(n - 1, n - 1);
 }
 
-// ---- two receivers of different alphabets alive in one process ------------------------------------------------
+// ---- two receivers (of different alphabets, or two of the same kind) alive in one process ------------------------------------------------
 // Anything a receiver keeps outside its own object (a function-local static, a cached comparison) is decided by the
 // receiver that runs first in the process.  Every case gets a FRESH worker process (mc::request_restart), creates two
 // receivers, and feeds them alternately, byte by byte, each with its own stream garbage || frame(p1) || frame(p2);
 // which of the two is fed first is a case dimension.  Expectations per receiver as in garbage_prefix.
-static void two_alphabets_case()
+static void two_receivers_case()
 {
-    static const int PAIR[3][2] = {{gs::CFG_V1, gs::CFG_V0}, {gs::CFG_V1, gs::LEGACY}, {gs::CFG_V0, gs::LEGACY}};
-    int first = mc::choose(3 * 2 * 6 * 6);
+    static const int PAIR[6][2] = {{gs::CFG_V1, gs::CFG_V0}, {gs::CFG_V1, gs::LEGACY}, {gs::CFG_V0, gs::LEGACY},
+                                   {gs::CFG_V1, gs::CFG_V1}, {gs::CFG_V0, gs::CFG_V0}, {gs::LEGACY, gs::LEGACY}}; // also two of a kind
+    int first = mc::choose(6 * 2 * 6 * 6);
     mc::request_restart(); // the next case runs in a process in which no receiver has run yet
     int gb = first % 6, ga = first / 6 % 6, order = first / 36 % 2, pr = first / 72;
     int codec[2] = {PAIR[pr][order], PAIR[pr][1 - order]}; // codec[0] receives the first byte of the process
@@ -439,7 +440,7 @@ static void two_alphabets_case()
     for (int t = 0; t < 2; t++)
     {
         bool same = gsref::golden(codec[t]).same();
-        const char *scen = t == 0 ? "two_alphabets.fed_first" : "two_alphabets.fed_second";
+        const char *scen = t == 0 ? "two_receivers.fed_first" : "two_receivers.fed_second";
         bool ok1 = true;
         if (!same || gsel[t] == 0)
             ok1 = expect_frame(*rig[t], run[t], s1[t], s2[t] - 1, pay[t][0], scen, "first_frame");
@@ -466,7 +467,7 @@ static void alphabet_constants_case()
 MC_INIT
 {
     mc::add_check("alphabet_constants", alphabet_constants_case);
-    mc::add_check("two_alphabets_one_process", two_alphabets_case);
+    mc::add_check("two_receivers_one_process", two_receivers_case);
     for (int codec = 0; codec < gs::NCODEC; codec++)
     {
         mc::add_check(mc::fmt("garbage_prefix.%s", gs::codec_name(codec)), [codec] { garbage_prefix_case(codec); });
